@@ -8,8 +8,8 @@
  *         N: no ApiListener at all.  S: A and B each alone in a zone of their own (zone1=[A], zone2=[B]).
  *         P: one zone zone1 = [A, B, extras...]; extras are further members that never run as a process.
  *   O <type> <ha 0|1> <active 0|1> <name>      object; type h Host, s Service, n Notification, d Downtime,
- *         c Comment, k CheckerComponent, f NotificationComponent; e Endpoint, z Zone, a ApiListener are
- *         derived from the C line (printed by the harness, ignored on input).  ha 1 = HARunEverywhere.
+ *         c Comment, k CheckerComponent, f NotificationComponent (types e z a F K of older replays are ignored).
+ *         ha 1 = HARunEverywhere.  Objects are numbered from 0 in the order of their O lines.
  *   H <name>                                    | <Utility::SDBM(name)>
  *   B <node> <start>                            (re)start of the process on <node> at time <start>
  *         (0 = Application start time not yet set): fresh objects, no connections.
@@ -28,8 +28,8 @@
  * Every B/K/U/X/N/D/T line is followed by ` | ` and this node's observation: for every object of the case, in
  * order, `<paused>:<#Pause() calls>:<#Resume() calls>:<#SetPaused calls>:<#command executions>:<#stashed>`, comma
  * separated (command executions: of the recording NotificationCommand for a Notification, of the recording
- * CheckCommand for a Host/Service; stashed: length of a Notification's stashed_notifications).  Derived objects: Endpoints, Zone(s), ApiListener (not in layout N), then the node's started
- * NotificationComponent `vnc` and CheckerComponent `vcc`.
+ * CheckCommand for a Host/Service; stashed: length of a Notification's stashed_notifications).  The Endpoint/Zone/ApiListener objects and the node's started NotificationComponent `vnc` /
+ * CheckerComponent `vcc` exist in every node process but are not observed (the property does not name them).
  *
  * Modes:  gen --seed S --tier quick|thorough [--node A|B]    ops FILE [--node A|B]
  * Without --node the process only spawns itself twice (node A, node B), reads both outputs in lockstep
@@ -178,7 +178,7 @@ static void GenCase(Rng& rng, std::vector<std::string>& out, bool thorough, long
 	const char types[] = "hhssnnndckf";
 	std::string shared = GenName(rng);
 	/* object numbers as the harness sees them: derived objects first */
-	int nDerived = (layout == 'N' ? 0 : layout == 'S' ? 5 : 2 + nExtra + 2) + 2;
+	int nDerived = 0;
 	std::vector<int> checkables;
 	for (int i = 0; i < nObj; i++) {
 		char t = i == 0 ? 'h' : types[rng.below(11)];
@@ -320,6 +320,7 @@ static std::string l_Zone1, l_Zone2;
 static std::vector<Obj> l_Objs;              /* derived (e, z, a) first, then the O lines */
 static size_t l_Derived = 0;
 static std::vector<Endpoint::Ptr> l_Endpoints;
+static std::vector<Zone::Ptr> l_Zones;
 static std::map<int, JsonRpcConnection::Ptr> l_Clients;
 static bool l_Built = false;
 
@@ -456,13 +457,17 @@ static void TearDown()
 	Sync();
 	for (size_t i = l_Objs.size(); i-- > 0;) {
 		Obj& o = l_Objs[i];
-		if (!o.ptr || o.type == 'a' || o.type == 'F' || o.type == 'K') continue;
-		if (o.active && o.type != 'k' && o.type != 'f' && o.type != 'e' && o.type != 'z')
+		if (!o.ptr) continue;
+		if (o.active && o.type != 'k' && o.type != 'f')
 			o.ptr->Deactivate();
 		Sync();
 		o.ptr->Unregister();
 		o.ptr = nullptr;
 	}
+	/* the infrastructure of the case (not observed: the property speaks of checkables, notifications, features, downtimes, comments) */
+	for (auto& z : l_Zones) z->Unregister();
+	for (auto& e : l_Endpoints) e->Unregister();
+	l_Zones.clear();
 	l_Endpoints.clear();
 	{ std::unique_lock<std::mutex> lock(l_CountersMutex); l_Counters.clear(); }
 	l_Built = false;
@@ -517,10 +522,7 @@ static void Build(long start)
 			/* connected after the production handler: runs right after UpdateObjectAuthority() returned */
 			(l_Listener.get()->*get(AuthTimerTag()))->OnTimerExpired.connect([](const Timer * const&) { TimerRan('a'); });
 		}
-		size_t k = 0;
-		for (size_t i = 0; i < l_Endpoints.size(); i++) l_Objs[k++].ptr = l_Endpoints[i];
-		for (auto& z : zones) l_Objs[k++].ptr = z;
-		l_Objs[k++].ptr = l_Listener;
+		l_Zones = zones;
 		for (auto& e : l_Endpoints) { e->PreActivate(); e->Activate(); }
 		for (auto& z : zones) { z->PreActivate(); z->Activate(); }
 		/* the listener object lives as long as the process: put it into the state of a fresh object */
@@ -529,9 +531,6 @@ static void Build(long start)
 	}
 	/* the node's started features live as long as the process, too */
 	{
-		size_t k = l_Derived - 2;
-		l_Objs[k].ptr = l_NC;
-		l_Objs[k + 1].ptr = l_CC;
 		l_NC->SetAuthority(false);
 		l_CC->SetAuthority(false);
 		Sync();
@@ -578,16 +577,10 @@ static void TimerRan(char which)
 
 static void DeriveObjects()
 {
+	/* Endpoint, Zone, ApiListener and the node's started components are config objects, too, and get an authority like
+	 * everything else -- but the property does not speak about them, so they are not part of the observation */
 	l_Objs.clear();
-	if (l_Layout != 'N') {
-		for (auto& n : l_EpNames) l_Objs.push_back(Obj{'e', false, true, n, nullptr});
-		l_Objs.push_back(Obj{'z', false, true, l_Zone1, nullptr});
-		if (l_Layout == 'S') l_Objs.push_back(Obj{'z', false, true, l_Zone2, nullptr});
-		l_Objs.push_back(Obj{'a', false, true, "api", nullptr});
-	}
-	l_Objs.push_back(Obj{'F', false, true, "vnc", nullptr});
-	l_Objs.push_back(Obj{'K', false, true, "vcc", nullptr});
-	l_Derived = l_Objs.size();
+	l_Derived = 0;
 }
 
 static void Emit(const std::string& op, const std::string& obs)
